@@ -223,7 +223,27 @@ def discharge(c, w, timeout_ms, collect_smt=None):
                     pr.failed.append((ob.key, ob.info, _model_inputs(m2 or m, w)))
                     continue
                 else:
-                    pr.unknown.append(ob.key)
+                    # second try: fresh non-incremental solver for the linear real fragment
+                    s2 = z3.SolverFor("QF_LRA")
+                    s2.set("timeout", timeout_ms)
+                    for a_ in c.assumptions:
+                        s2.add(a_)
+                    for p_ in c.path_condition():
+                        s2.add(p_)
+                    s2.add(z3.Not(t))
+                    t0 = time.time()
+                    r2 = s2.check()
+                    pr.t_solver += time.time() - t0
+                    pr.queries += 1
+                    if r2 == z3.unsat:
+                        pr.by_solver += 1
+                    elif r2 == z3.sat:
+                        m = s2.model()
+                        c.solver.pop()
+                        pr.failed.append((ob.key, ob.info, _model_inputs(m, w)))
+                        continue
+                    else:
+                        pr.unknown.append(ob.key)
                 c.solver.pop()
     # ---- nonlinear / chained obligations: a fresh solver each (nlsat), lemma chaining
     lemmas = []
@@ -391,7 +411,7 @@ def process_config(args):
                         res["nontrivial_paths"] += 1
                     if pr.sample and res["sample"] is None:
                         res["sample"] = dict(config=cfg["key"], obligation=pr.sample[0], negated_goal_unsat=pr.sample[1],
-                                             path_condition=[str(p)[:200] for p in c.path_condition()][:6])
+                                             path_condition=[p.sexpr()[:200] for p in c.path_condition()[:6]])
                     res["unknown"].extend(pr.unknown)
                     for key, info, inputs in pr.failed:
                         res["violations"].append(dict(ob=key, info=info, inputs=inputs))
